@@ -164,6 +164,7 @@ func recordMain(args []string) {
 	seed := fs.Int64("seed", 1, "seed")
 	corpus := fs.String("corpus", "", "testdata directory of the repository (its expressions are recorded too)")
 	mode := fs.String("mode", "general", "general | sort | unicode")
+	maxLen := fs.Int("maxlen", 200, "largest array in sort mode")
 	fs.Parse(args)
 	f, err := os.Create(*outPath)
 	if err != nil {
@@ -236,7 +237,7 @@ func recordMain(args []string) {
 	case "sort":
 		// arrays far beyond what TLC enumerates (13..200 elements, many ties)
 		for i := 0; i < *n; i++ {
-			ln := 13 + g.r.Intn(188)
+			ln := 13 + g.r.Intn(*maxLen-12)
 			arr := make([]any, ln)
 			strKeys := g.r.Intn(2) == 0
 			mod := 1 + g.r.Intn(7)
